@@ -15,6 +15,23 @@ SRT_CFGS = [{"text_formatting": True}, {"text_formatting": False}]
 VTT_CFGS = [{"line_position": lp, "text_align": ta, "cue_id": ci} for lp, ta, ci in itertools.product([False, True], repeat=3)]
 
 
+def ms_of(t: Fraction):
+  """Acceptable millisecond values of instant t. At an exact .5 ms tie either neighbour is acceptable, but one instant must
+  round the same way wherever it is used (end of one cue, begin of the next): the tie is resolved by asking the library's own
+  rounding function (whose result C12 checks to be a nearest millisecond) and keeping it when it is one of the candidates."""
+  c = Q.ms_round(t)
+  if len(c) == 2:
+    try:
+      from ttconv.time_code import ClockTime
+      ct = ClockTime.from_seconds(t)
+      v = ((ct.get_hours() * 60 + ct.get_minutes()) * 60 + ct.get_seconds()) * 1000 + ct.get_milliseconds()
+      if v in c:
+        return (v,)
+    except Exception:  # pylint: disable=broad-except
+      pass
+  return c
+
+
 class Expected:
   """Expected cues of one document for one writer configuration."""
 
@@ -42,11 +59,11 @@ class Expected:
           chars.extend(cs)
         if not Q.lines_of(chars, True) and not Q.lines_of(chars, False):
           continue
-        b = Q.ms_round(Fraction(s))
+        b = ms_of(Fraction(s))
         if nxt is None:
           e = tuple(x + 10000 for x in b)
         else:
-          e = Q.ms_round(Fraction(nxt))
+          e = ms_of(Fraction(nxt))
         self.cues.append({"begin": b, "end": e, "chars": chars, "region": region, "paras": paras, "unbounded": nxt is None,
                           "may_vanish": min(e) <= max(b), "must_vanish": max(e) <= min(b),
                           "mandatory_blank": not Q.lines_of(chars, False)})
